@@ -126,7 +126,7 @@ class PolyScenario:
     @classmethod
     def generate(cls, rng, ploidy=4, n_contigs=1, n_variants=(6, 12), cov_per_hap=(4, 8), read_len=(60, 200),
                  multi_prob=0.2, indel_prob=0.0, hom_prob=0.15, uneven=True, samples=("S1",), gaps=False,
-                 min_gap=12, gap_frac=None):
+                 min_gap=12, gap_frac=None, orphans=0):
         contigs, variants, haps, reads = {}, {}, {}, []
         pl = {s: (ploidy[s] if isinstance(ploidy, dict) else ploidy) for s in samples}
         rid = 0
@@ -138,6 +138,8 @@ class PolyScenario:
             contigs[name] = seq
             variants[name] = make_poly_variants(rng, name, seq, nv, multi_prob, indel_prob, min_gap=min_gap)
             L = len(seq)
+            nvr = len(variants[name])
+            orph = sorted(rng.sample(range(1, nvr - 1), min(orphans, max(0, nvr - 3)))) if orphans and nvr >= 4 else []
             for s in samples:
                 k = pl[s]
                 hs = random_haplotypes(rng, variants[name], k, hom_prob=hom_prob)
@@ -161,6 +163,20 @@ class PolyScenario:
                                 en = gap_at
                             else:
                                 st = gap_at
+                        for oi in orph:
+                            # an "orphan" variant: every read that reaches it covers no other variant (such reads are
+                            # discarded by polyphase before phasing, so the variant drops out of the phasing input)
+                            ov = variants[name][oi]
+                            op_, oe_ = ov["pos"], ov["pos"] + len(ov["ref"])
+                            if st < oe_ and op_ < en:
+                                if rng.random() < 0.5:
+                                    st, en = max(0, op_ - 5), min(L, oe_ + 5)
+                                elif op_ - st > en - oe_:
+                                    en = op_ - 1
+                                else:
+                                    st = oe_ + 1
+                        if en - st < 3:
+                            continue
                         pr = poly_read(seq, variants[name], hs[h], st, en)
                         if pr is None:
                             continue
